@@ -158,6 +158,9 @@ type orderRound struct {
 	// object for all of them; More: a second ImportNames call that only File 0 makes (names for paths other Files use too)
 	Table map[string]string `json:"table"`
 	More  map[string]string `json:"more"`
+	// Grow: after File i has been built (and before anything is rendered) the generator goes on using the SAME table
+	// object for the next File and adds names to it - also for paths that File i references
+	Grow []map[string]string `json:"grow"`
 }
 
 // identHelpers: the package functions of the tree under test that name a predeclared identifier (Bool(), String(), Err() ...)
@@ -208,7 +211,15 @@ func (rd *orderRound) build(which []int) []*jen.File {
 		}
 	}
 	files := []*jen.File{}
+	grown := 0 // the table has received Grow[0 .. grown-1]
 	for _, i := range which {
+		// what the generator added to the table while it prepared the Files before this one is in it when this File gets
+		// it (whether or not those Files are built here); what it adds afterwards comes after this File's ImportNames call
+		for ; table != nil && grown < i && grown < len(rd.Grow); grown++ {
+			for k, v := range rd.Grow[grown] {
+				table[k] = v
+			}
+		}
 		sp := rd.Specs[i]
 		var f *jen.File
 		if sp.Local != "" {
@@ -356,6 +367,13 @@ func cmdConcOrders(args []string) {
 			// the same table for every File; File 0 then learns more names - for paths that the other Files reference too
 			rd.Table = map[string]string{"shop/db_models": "models", "tab/one": "one", "tab/two": "two"}
 			rd.More = map[string]string{"shop/DB-models": "models2", "a.b/c_d": "cd", "v/2x": "twox"}
+			for i := 0; i < nfiles; i++ {
+				gp := pool[r.Intn(len(pool))]
+				if StdName(gp) != "" {
+					gp = "y/d" // (no claims about standard packages)
+				}
+				rd.Grow = append(rd.Grow, map[string]string{gp: "grown" + strconv.Itoa(i), "z/d": "zd" + strconv.Itoa(i)})
+			}
 		}
 		for s := 0; s < 1+r.Intn(3); s++ {
 			ps := []string{}
@@ -423,6 +441,10 @@ func cmdConcFree(args []string) {
 				h := []Action{newAct("", "")}
 				for k := 0; k < 24; k++ {
 					p := fmt.Sprintf("fresh/r%dj%dk%d/pkg%d", round, i, k, k%2) // (a dozen competitors per name: numeric suffixes of two digits)
+					if k%3 == 0 {
+						// last elements that are no identifiers as they stand (go-redis, yaml.v3): the guessed name is a cleaned-up one
+						p = fmt.Sprintf("fresh/r%dj%dk%d/%s", round, i, k, []string{"go-redis", "yaml.v3", "Upper_Case", "9lives"}[k/3%4])
+					}
 					h = append(h, Action{A: "Add", Tree: varQ(p, st.sym(p))})
 				}
 				h[0].Ctor = "NewFilePath"
